@@ -23,7 +23,8 @@ def run(ctx, model_ok):
     ctx.cov.setdefault("evaluations", ost["c12_cases"])
     ctx.cov.setdefault("distinct_nontrivial", ost["c12_cases"])
     ctx.cov.setdefault("samples", [ost])
-    ctx.cov["not_shown"] = ["homogeneity of Cylinder, CylinderSegment, Circle, Triangle-family kernels (not ported to the real carrier): rescaling oracle 1e-9..1e9 only",
+    ctx.cov["not_shown"] = ["homogeneity of the Cylinder and CylinderSegment kernels (not ported to the real carrier) and of the TriangularMesh inside test: "
+                            "rescaling oracle 1e-9..1e9 only (proved: Dipole, Sphere, segment, Cuboid, Triangle, Tetrahedron, Circle with cel as an opaque function)",
                             "float loss of absolute offsets at extreme scales is outside exact real arithmetic"]
 
 
